@@ -23,7 +23,8 @@ ASSUMPTIONS = [
     "respawns a component whose name and type are unchanged",
     "HashMap iteration order is arbitrary: action logs and running sets are compared as sorted sets",
     "documents use user-chosen names that do not collide with generated '<name>-vRIB-<i>' names; rib_type is left to default; "
-    "the roto script (prepare's compile step) is absent",
+    "the roto script (prepare's compile step) is absent in the `c13` engine; the `e2e` engine loads configurations that name a script, edits it and "
+    "reloads (E2e/E2eModel.v e_step: a unit filters with the script of the load that started it; running units keep theirs)",
     "a unit counts as consumed when any section of the file links to it, including a section that is itself not started",
 ]
 
